@@ -3181,3 +3181,211 @@ func nodeEventsRule(p *chk.Prog, r *chk.Report) {
 	})
 	x.Check("predicate:or-label-change", f.Pos(), orLabels, "", "label changes of the node are not let through next to the availability change")
 }
+
+// branchAlwaysBeforeReturn: every path that enters the branch through the edge ends in a return of that branch, and
+// passes a node satisfying via first. Decided on the shape of the graph, and when that finds a way around (`if !flag {
+// via }` written out at the return by the deferred-cleanup normalisation), again with the flags and conditions in force:
+// every return of the branch is reached only with via executed.
+func branchAlwaysBeforeReturn(f *chk.Fn, g *chk.Graph, e chk.Edge, via func(ast.Node) bool) bool {
+	if !g.BranchAlways(e, via).Found {
+		return true
+	}
+	region := g.Region(e)
+	if region == nil {
+		return false
+	}
+	// the branch cannot be left other than by returning
+	if g.BranchAlways(e, func(n ast.Node) bool { _, isRet := n.(*ast.ReturnStmt); return isRet }).Found {
+		return false
+	}
+	n := 0
+	for _, rt := range g.Returns() {
+		if !chk.Encloses(region, rt.Node) {
+			continue
+		}
+		n++
+		if !g.Dominated(rt, chk.GEvent(via)) {
+			return false
+		}
+	}
+	return n > 0
+}
+
+// errExit is one place where a function decides to fail: the site and the error expression.
+type errExit struct {
+	Site chk.Site
+	Expr ast.Expr
+}
+
+// errorExits lists where the function's error result (result number idx) gets a value that is not the nil literal: the
+// return statements themselves, and, when a return hands back a variable that only carries the result of an expanded
+// helper or literal (`_inlNrK = E; goto L; L: err := _inlNrK; if err != nil { return err }`), the assignments to that
+// variable instead.
+func errorExits(f *chk.Fn, g *chk.Graph, idx int) []errExit {
+	var out []errExit
+	seen := map[types.Object]bool{}
+	var fromVar func(o types.Object)
+	add := func(s chk.Site, e ast.Expr) {
+		if f.IsNilLit(e) {
+			return
+		}
+		if id, isId := ast.Unparen(e).(*ast.Ident); isId {
+			src := id
+			if !inlineResult.MatchString(id.Name) {
+				if rhs, _ := g.DefOf(id, g.FactSite(id)); rhs != nil {
+					if rid, isR := ast.Unparen(rhs).(*ast.Ident); isR && inlineResult.MatchString(rid.Name) {
+						src = rid
+					}
+				}
+			}
+			if inlineResult.MatchString(src.Name) {
+				if o := f.ObjOf(src); o != nil {
+					fromVar(o)
+					return
+				}
+			}
+		}
+		out = append(out, errExit{s, e})
+	}
+	fromVar = func(o types.Object) {
+		if seen[o] {
+			return
+		}
+		seen[o] = true
+		for _, st := range g.Find(func(n ast.Node) bool {
+			as, ok := n.(*ast.AssignStmt)
+			if !ok || len(as.Lhs) != len(as.Rhs) {
+				return false
+			}
+			for _, l := range as.Lhs {
+				if id, isId := l.(*ast.Ident); isId && f.ObjOf(id) == o {
+					return true
+				}
+			}
+			return false
+		}) {
+			as := st.Node.(*ast.AssignStmt)
+			for i, l := range as.Lhs {
+				if id, isId := l.(*ast.Ident); isId && f.ObjOf(id) == o {
+					add(st, as.Rhs[i])
+				}
+			}
+		}
+	}
+	for _, rt := range g.Returns() {
+		res := retResults(rt)
+		if idx >= len(res) {
+			continue
+		}
+		add(rt, res[idx])
+	}
+	return out
+}
+
+// fetchCheckedRule (shared by C03, C06, C07, C18): what a reconciler reads from the API is used only when the read
+// succeeded. After `err := c.Get(ctx, key, &obj)` / `c.List(ctx, &list)` every later mention of obj / list in the
+// function is reached only with that call's error nil (for Get: or recognised as not-found). A reconciler that goes on
+// with a zero object or a partial list hands the handlers a cluster state that never existed: Services are cleared or
+// re-allocated although nothing about them changed.
+func fetchCheckedRule(p *chk.Prog, r *chk.Report) {
+	x := r.Rule("FETCH-CHECKED", "B path", "in package internal/k8s/controllers, after a controller-runtime client Get(ctx, key, obj) / List(ctx, list) every later mention of the object read into is dominated by the nil error of that call (or, for Get, by apierrors.IsNotFound of that error)", 18)
+	n := 0
+	for _, f := range p.FuncsIn(ctrlPkg) {
+		if f.Body == nil {
+			continue
+		}
+		var calls []*ast.CallExpr
+		chk.InspectNoLit(f.Body, func(nd ast.Node) bool {
+			c, ok := nd.(*ast.CallExpr)
+			if !ok {
+				return true
+			}
+			fo, _ := f.Callee(c).(*types.Func)
+			if fo == nil || fo.Pkg() == nil || !strings.HasSuffix(fo.Pkg().Path(), "controller-runtime/pkg/client") {
+				return true
+			}
+			if (fo.Name() == "Get" && len(c.Args) >= 3) || (fo.Name() == "List" && len(c.Args) >= 2) {
+				calls = append(calls, c)
+			}
+			return true
+		})
+		if len(calls) == 0 {
+			continue
+		}
+		r.Saw(f)
+		g := f.Graph()
+		for _, c := range calls {
+			c := c
+			fo := f.Callee(c).(*types.Func)
+			arg := c.Args[1]
+			if fo.Name() == "Get" {
+				arg = c.Args[2]
+			}
+			o := f.RootObj(arg)
+			if u, isU := ast.Unparen(arg).(*ast.UnaryExpr); isU && u.Op == token.AND {
+				o = f.RootObj(u.X)
+			}
+			if o == nil {
+				continue
+			}
+			n++
+			isCall := func(e ast.Expr) bool { return ast.Unparen(e) == ast.Expr(c) }
+			fromCall := func(e ast.Expr) bool {
+				if isCall(e) {
+					return true
+				}
+				id, isId := ast.Unparen(e).(*ast.Ident)
+				if !isId {
+					return false
+				}
+				rhs, _ := g.DefOf(id, g.FactSite(id))
+				return rhs != nil && isCall(rhs)
+			}
+			okErr := chk.GFunc(func(ft chk.Fact) bool {
+				xx, yy, eq, ok := chk.EqParts(ft)
+				if !ok || !eq {
+					return false
+				}
+				switch {
+				case f.IsNilLit(yy):
+					return fromCall(xx)
+				case f.IsNilLit(xx):
+					return fromCall(yy)
+				}
+				return false
+			})
+			guard := okErr
+			if fo.Name() == "Get" {
+				guard = chk.GOr(okErr, g.GPat(true, "apierrors.IsNotFound(E)", chk.H("E", fromCall)),
+					g.GPat(true, "client.IgnoreNotFound(E) == nil", chk.H("E", fromCall)))
+			}
+			var bad *ast.Ident
+			chk.InspectNoLit(f.Body, func(nd ast.Node) bool {
+				if bad != nil {
+					return false
+				}
+				if nd == ast.Node(c) {
+					return false
+				}
+				id, isId := nd.(*ast.Ident)
+				if !isId || f.ObjOf(id) != o || id.Pos() < c.End() || f.Info().Defs[id] != nil {
+					return true
+				}
+				site := g.FactSite(id)
+				if site.B == nil {
+					return true
+				}
+				if !g.Dominated(site, guard) {
+					bad = id
+				}
+				return true
+			})
+			pos := c.Pos()
+			if bad != nil {
+				pos = bad.Pos()
+			}
+			x.Check(f.Name()+":"+fo.Name()+"("+f.Src(arg)+")", pos, bad == nil, "", "the object read by "+fo.Name()+" is used although the read failed (or its error was tested on another variable): the handlers are given a zero object / a partial list, a cluster state that never existed")
+		}
+	}
+	_ = n
+}
